@@ -6,7 +6,9 @@ From simple_parsing/annotation_utils/get_field_annotations.py:
                                        each tied to its role by an exact statement skeleton (fail closed), and the
                                        exception class of _not_supported
   * _replace_UnionType_with_typing_Union -> the `if <test>: ... return ...` dispatch in source order, each arm mapped to a
-                                       known (test, action) pair, and the final raise (which inputs are refused)
+                                       known (test, action) pair, and the final raise (which inputs are refused); both
+                                       shapes are recognised (with / without `if annotation is Ellipsis: return annotation`)
+                                       and NORM_HANDLES_ELLIPSIS_GEN says which one the source has
   * get_field_type_from_annotations -> only checked: normalisation is applied to a top-level types.UnionType only, the
                                        rewriter to str annotations containing the bar only
 From simple_parsing/utils.py: is_list / is_tuple / is_dict / builtin_types have the shapes the model assumes.
@@ -169,8 +171,12 @@ def _norm_facts(tree):
         if len(act) != 1:
             raise Unrecognised(f"{R}: body of the arm `{unparse(s.test)}` is not one of the known actions: "
                                + " | ".join(texts)[:200])
+        if test == "NIsEllipsis" and act[0] != "AId":
+            raise Unrecognised(f"{R}: the Ellipsis arm does something else than returning the annotation")
         rows.append(f"({test}, {act[0]})")
-    return "[" + "; ".join(rows) + "]", f"ARaise {cstr(_raise_name(body[-1]))}"
+    # both shapes of the function are recognised: with and without the arm that lets the `...` of tuple[X, ...] through
+    handles_ellipsis = "(NIsEllipsis, AId)" in rows
+    return "[" + "; ".join(rows) + "]", f"ARaise {cstr(_raise_name(body[-1]))}", handles_ellipsis
 
 
 # ---- shape checks (nothing emitted beyond a marker) -----------------------------------------------
@@ -226,7 +232,7 @@ def emit(repo: str) -> str:
 
     refs = _forward_refs(gfa)
     rw = _rewriter_facts(gfa)
-    table, els = _norm_facts(gfa)
+    table, els, handles_ellipsis = _norm_facts(gfa)
 
     # utils: the predicates the dispatch relies on
     for name, want in (("is_list", ["return list in _mro(t)"]), ("is_tuple", ["return tuple in _mro(t)"]),
@@ -293,6 +299,7 @@ def emit(repo: str) -> str:
         f"Definition RW_NOT_SUPPORTED_GEN : string := {cstr(rw['not_supported'])}.\n"
         f"Definition NORM_TABLE_GEN : list (ntest * nact) := {table}.\n"
         f"Definition NORM_ELSE_GEN : nact := {els}.\n"
+        f"Definition NORM_HANDLES_ELLIPSIS_GEN : bool := {'true' if handles_ellipsis else 'false'}.\n"
         f"Definition FIELD_KINDS_GEN : list fkind := [{'; '.join(kinds)}].\n"
         "(* the model instantiated with the regenerated facts *)\n"
         "Definition old_style_fuel_gen := old_style_fuel RW_BAR_GEN RW_LBR_GEN RW_RBR_GEN RW_COMMA_GEN\n"
